@@ -36,6 +36,13 @@ Init == /\ heap \in ObjChoices /\ orig = heap /\ disp = [i \in DOMAIN heap |-> Z
         /\ args = ArgPts /\ ncopy = [i \in DOMAIN heap |-> 0] /\ hist = <<>>
 
 Step(e) == hist' = Append(hist, e)
+\* translations that are special for the object itself: a segment moved by its own span (an end point lands on the other one), a
+\* polygon moved along one of its edges, a line / half-line along its direction, a plane along its normal
+SelfVecs(o) == CASE o.k = "Segment" -> {HDiff(o.a, o.b), HDiff(o.b, o.a)}
+                 [] o.k \in {"Line", "HalfLine"} -> {o.u}
+                 [] o.k = "Plane" -> {o.n}
+                 [] o.k = "Polygon" -> {HDiff(o.cyc[2], o.cyc[1])}
+                 [] OTHER -> {}
 
 \* a new object enters the session (used by the trace specification; the generating configurations start from ObjChoices)
 Create(o)  == /\ heap' = Append(heap, o) /\ orig' = Append(orig, o) /\ disp' = Append(disp, Zero3) /\ ncopy' = Append(ncopy, 0)
@@ -99,7 +106,7 @@ Mutate(k, v) == /\ args' = [args EXCEPT ![k] = Add(@, v)] /\ UNCHANGED <<heap, o
                 /\ Step([act |-> "Mutate", k |-> k, v |-> v])
 
 Next == /\ Len(hist) < MaxDepth
-        /\ \/ "Move" \in Alphabet /\ \E i \in Ids, v \in MoveVecs : Move(i, v)
+        /\ \/ "Move" \in Alphabet /\ \E i \in Ids : \E v \in MoveVecs \cup SelfVecs(heap[i]) : Move(i, v)
            \/ "Copy" \in Alphabet /\ \E i \in Ids : ncopy[i] < 1 /\ Copy(i)
            \/ "Neg" \in Alphabet /\ \E i \in Ids : NegObj(i)
            \/ "MoveKeep" \in Alphabet /\ \E i \in Ids, v \in MoveVecs : MoveKeep(i, v)
@@ -114,7 +121,7 @@ Spec == Init /\ [][Next]_vars
 \* drawn with RandomElement first and only the handful of actions on them is offered (not a BFS relation).
 NextSim == /\ Len(hist) < MaxDepth
            /\ LET i == RandomElement(Ids)  j == RandomElement(Ids)  v == RandomElement(MoveVecs)
-              IN \/ "Move" \in Alphabet /\ Move(i, v)
+              IN \/ "Move" \in Alphabet /\ Move(i, RandomElement(MoveVecs \cup SelfVecs(heap[i])))
                  \/ "Copy" \in Alphabet /\ ncopy[i] < 1 /\ Copy(i)
                  \/ "Neg" \in Alphabet /\ NegObj(i)
                  \/ "MoveKeep" \in Alphabet /\ MoveKeep(i, v)
